@@ -80,6 +80,7 @@ def rewrite(rng, text, kinds):
         out.append(l)
     nl = "\n" if "lf" in kinds else "\r\n"
     if "refold" in kinds:
+        only = rng.choice((None, None, " ", "\t"))        # sometimes every fold of the text uses the same white-space character
         folded = []
         for l in out:
             if len(l) > 1 and rng.randrange(3):
@@ -92,7 +93,7 @@ def rewrite(rng, text, kinds):
                     parts.append(l[prev:p])
                     prev = p
                 parts.append(l[prev:])
-                l = parts[0] + "".join(nl + rng.choice((" ", "\t")) + x for x in parts[1:])
+                l = parts[0] + "".join(nl + (only or rng.choice((" ", "\t"))) + x for x in parts[1:])
             folded.append(l)
         out = folded
     else:
